@@ -126,9 +126,11 @@ func (d *While) Evaluation(
 			continue
 		}
 
+		// a diagnostic inside the loop body must not end the loop early: the
+		// rest of the body and its `end` would be read by the enclosing body
 		err = e.Eval(p, ctx, nextT)
-		if err != nil && ctx.IsAfterCollectRound() {
-			return err
+		if err != nil {
+			p.Fatal(ctx, err)
 		}
 	}
 
